@@ -51,6 +51,11 @@ SCRIPTS['m'] = ('(declare-datatype Color ((red) (green) (blue) (black) '
                 '(declare-const d Color)(assert (= c (mix d d)))'
                 '(assert (distinct c d))(check-sat)')
 
+# competing simplifications of the smtlib group (annotation removal, quoted
+# symbols that need no quotes)
+SCRIPTS['n'] = ('(set-logic QF_LIA)(declare-const |x| Int)'
+                '(assert (! (> |x| 0) :named a1))(check-sat)')
+
 MUTSETS = {
     'consts': ['Constants'],
     'late': ['SimplifySymbolNames', 'ReplaceByVariable'],
@@ -116,6 +121,7 @@ KEYS = {
     'h': ['f1', 'f4', 'f8', 'f9', 'check-sat', 'declare-const'],
     'k': ['x', '12', '17', '21', '>', '+'],
     'm': ['c', 'd', 'mix', 'distinct', '=', 'check-sat'],
+    'n': ['|x|', '!', ':named', 'a1', '>', 'set-logic'],
 }
 
 
